@@ -770,3 +770,108 @@ Section PPIMasks.
     - apply Forall2_eq_map. apply (Forall2_impl2 _ _ _ _ ltac:(intros a b [_ H]; exact H) F4).
   Qed.
 End PPIMasks.
+
+(* ------------------------------------------------------------------ any mixture of the three slicers *)
+Section Main.
+  Variables T R : Type.
+  Variable leb : T -> T -> bool.
+  Hypothesis leb_trans : forall a b c, leb a b = true -> leb b c = true -> leb a c = true.
+  Hypothesis leb_total : forall a b, leb a b = false -> leb b a = true.
+  Variable d0 : T.
+  Variables M W : Type.
+  Variable mle : M.
+  Variable wnone : W.
+  Variables Tm P : Type.
+  Variable tfit : Tm -> option P -> M -> W -> list T -> P.
+  Variables Dep DP Y : Type.
+  Variable proj : Dep -> P -> Y.
+  Variable dfit : Dep -> option DP -> list R -> list Y -> DP.
+  Notation col := (col T d0).
+
+  (* the slicer of dimension c, for the two row orders at hand: a Width/Number slicer whose value range (hence
+     plan) is the same for both orders, or a PointsPerIntervalSlicer whose argsort oracle keeps its contract
+     and no two observations in different chunks are tied *)
+  Definition slicer_good (rows rows' : list (list T)) (c : nat) (sl : slicer T R) : Prop :=
+    (exists mk rf, sl = edge_slicer T R leb mk rf /\ mk (col c rows) = mk (col c rows') /\ rf_inv T R rf) \/
+    (exists argsort n lf mnp mni bnds rf,
+        sl = ppi_slicer T R argsort n lf mnp mni bnds rf /\ 0 < n /\
+        argsort_contract T leb d0 (argsort (col c rows)) (col c rows) /\
+        argsort_contract T leb d0 (argsort (col c rows')) (col c rows') /\
+        (forall L L', Forall2 (@Permutation T) L L' -> bnds L = bnds L') /\
+        (forall x x', Permutation x x' -> rf x = rf x') /\
+        separated T leb (list T) (keyc T d0 c) (gppi_chunks n lf (map (rowat T rows) (argsort (col c rows))))).
+
+  Theorem fit_perm_slicers slicers ds st rows rows' fds :
+    tfit_inv T M W Tm P tfit -> Permutation rows rows' ->
+    (forall c sl, nth_error slicers c = Some sl -> slicer_good rows rows' c sl) ->
+    oeq (Forall2 (oeq (feq T R P DP)))
+        (fit T R d0 M W mle wnone Tm P tfit Dep DP Y proj dfit slicers ds st rows fds)
+        (fit T R d0 M W mle wnone Tm P tfit Dep DP Y proj dfit slicers ds st rows' fds).
+  Proof.
+    intros Ht HP Hall. apply fit_perm; auto. intros i c. destruct (nth_error slicers c) as [sl|] eqn:E.
+    - destruct (Hall c sl E) as [[mk [rf [-> [Hmk Hrf]]]]|[argsort [n [lf [mnp [mni [bnds [rf [-> [Hn [Hc [Hc' [Hb [Hrf Hsep]]]]]]]]]]]]]].
+      + exact (split_edge_perm_on T R leb d0 slicers mk rf rows rows' i c E Hmk Hrf HP).
+      + exact (split_ppi_perm T leb leb_trans leb_total d0 R slicers argsort n lf mnp mni bnds rf rows rows' i c E Hn HP Hc Hc' Hb Hrf Hsep).
+    - unfold split_in_intervals. rewrite E. exact I.
+  Qed.
+End Main.
+
+(* ------------------------------------------------------------------ the binary64 slicers are these slicers *)
+Section FloatSlicers.
+  Import PrimFloat.
+  Lemma width_slice_plan width r ro vmin vmax mnp mni data :
+    width_slice width r ro vmin vmax mnp mni data
+    = plan_slice float float fleb (width_plan width r ro vmin vmax mnp mni data) data.
+  Proof. reflexivity. Qed.
+
+  Lemma number_slice_plan n r im vr mnp mni data :
+    number_slice n r im vr mnp mni data
+    = plan_slice float float fleb (number_plan n r im vr mnp mni data) data.
+  Proof. unfold number_slice, number_plan, plan_slice.
+    destruct (match vr with Some p => p | None => (FloatBits.fmin data, FloatBits.fmax data) end) as [v0 v1]. cbn [fst snd].
+    destruct (number_edges v0 v1 n) as [[s w] e]. reflexivity. Qed.
+
+  (* the plans read the data only through its maximum / minimum (value_range = None) *)
+  Lemma width_plan_range width r ro vmin vmax mnp mni x x' : FloatBits.fmax x = FloatBits.fmax x' ->
+    width_plan width r ro vmin vmax mnp mni x = width_plan width r ro vmin vmax mnp mni x'.
+  Proof. intros H. unfold width_plan. rewrite H. reflexivity. Qed.
+  Lemma number_plan_range n r im vr mnp mni x x' : FloatBits.fmin x = FloatBits.fmin x' -> FloatBits.fmax x = FloatBits.fmax x' ->
+    number_plan n r im vr mnp mni x = number_plan n r im vr mnp mni x'.
+  Proof. intros H1 H2. unfold number_plan. rewrite H1, H2. reflexivity. Qed.
+  Lemma number_plan_explicit n r im v mnp mni x x' :
+    number_plan n r im (Some v) mnp mni x = number_plan n r im (Some v) mnp mni x'.
+  Proof. reflexivity. Qed.
+  Lemma width_plan_explicit width r ro vmin v mnp mni x x' :
+    width_plan width r ro vmin (Some v) mnp mni x = width_plan width r ro vmin (Some v) mnp mni x'.
+  Proof. reflexivity. Qed.
+
+  Lemma fmax_gmax l : FloatBits.fmax l = gmax float PrimFloat.ltb nan l.
+  Proof. destruct l as [|a l]; [reflexivity|]. cbn [FloatBits.fmax gmax]. revert a.
+    induction l as [|x l IH]; intros a; [reflexivity|]. cbn [FloatBits.fmax_from gmax_from]. apply IH. Qed.
+  Lemma fmin_gmax l : FloatBits.fmin l = gmax float (fun a b => PrimFloat.ltb b a) nan l.
+  Proof. destruct l as [|a l]; [reflexivity|]. cbn [FloatBits.fmin gmax]. revert a.
+    induction l as [|x l IH]; intros a; [reflexivity|]. cbn [FloatBits.fmin_from gmax_from]. apply IH. Qed.
+
+  (* np.max / np.min of the column do not depend on the row order, as long as < on the values that occur is a
+     strict total order (no NaN, not both signed zeros) *)
+  Definition strict_total_on (D : float -> Prop) : Prop :=
+    (forall a, D a -> PrimFloat.ltb a a = false) /\
+    (forall a b c, D a -> D b -> D c -> PrimFloat.ltb a b = true -> PrimFloat.ltb b c = true -> PrimFloat.ltb a c = true) /\
+    (forall a b, D a -> D b -> PrimFloat.ltb a b = false -> PrimFloat.ltb b a = false -> a = b).
+
+  Lemma fmax_perm x x' : strict_total_on (fun a => In a x) -> Permutation x x' -> FloatBits.fmax x = FloatBits.fmax x'.
+  Proof. intros [H1 [H2 H3]] HP. rewrite !fmax_gmax. apply (gmax_perm float PrimFloat.ltb (fun a => In a x)); auto. Qed.
+  Lemma fmin_perm x x' : strict_total_on (fun a => In a x) -> Permutation x x' -> FloatBits.fmin x = FloatBits.fmin x'.
+  Proof. intros [H1 [H2 H3]] HP. rewrite !fmin_gmax. apply (gmax_perm float (fun a b => PrimFloat.ltb b a) (fun a => In a x)); auto.
+    - intros a b c Da Db Dc Hab Hbc. exact (H2 c b a Dc Db Da Hbc Hab).
+    - intros a b Da Db Hab Hba. exact (H3 a b Da Db Hba Hab). Qed.
+
+  Theorem width_plan_perm width r ro vmin vmax mnp mni x x' :
+    strict_total_on (fun a => In a x) -> Permutation x x' ->
+    width_plan width r ro vmin vmax mnp mni x = width_plan width r ro vmin vmax mnp mni x'.
+  Proof. intros H HP. apply width_plan_range. apply fmax_perm; assumption. Qed.
+  Theorem number_plan_perm n r im vr mnp mni x x' :
+    strict_total_on (fun a => In a x) -> Permutation x x' ->
+    number_plan n r im vr mnp mni x = number_plan n r im vr mnp mni x'.
+  Proof. intros H HP. apply number_plan_range; [apply fmin_perm|apply fmax_perm]; assumption. Qed.
+End FloatSlicers.
